@@ -71,6 +71,36 @@ def dump (s : V) (o : Out) : String :=
   let oob := s.oob || it.2
   s!"{outStr o} | L {s.len} {s.storedLen} {s.realStoredLen} {s.stamp} | H {natsStr s.holes} | I {it.1.length} {h} [{head}] [{tail}] | C {natsStr (s.changes.map (·.1))} | P {pages} | X {if oob then 1 else 0}"
 
+/-! ### C08: the read plan shared with harness/src/read_paths.rs -/
+
+def candidates (len stored pp : Nat) : List Nat :=
+  [0, 1, stored - 1, stored, stored + 1, len - 1, len, len + 1, pp - 1, pp, pp + 1, 2 ^ 63 - 1]
+
+def pick (seed j len stored pp : Nat) : Nat :=
+  let m := mix ((seed * 1000003 + j) % U64)
+  if m % 3 == 0 then (m / 3) % (len + 2)
+  else (candidates len stored pp).getD ((m / 3) % 12) 0
+
+/-- reference restricted to `[a, b)`: the non-deleted elements in index order -/
+def specRange (items : List (Option Nat)) (a b : Nat) : List Nat :=
+  ((items.drop a).take (min b items.length - a)).filterMap id
+
+def feedVal (h : UInt64) (v : Nat) : UInt64 := (leBytes 8 v).foldl fnvStep h
+
+def readHash (s : V) (seed : Nat) : UInt64 :=
+  let items := s.items.1
+  let len := items.length
+  let pp := s.perPage
+  let h := (List.range 24).foldl (fun (h : UInt64) k =>
+    let a := pick seed (2 * k) len s.storedLen pp
+    let b := pick seed (2 * k + 1) len s.storedLen pp
+    fnvStep ((specRange items a b).foldl feedVal h) 0xFF) fnvInit
+  (List.range 12).foldl (fun (h : UInt64) k =>
+    let i := pick seed (100 + k) len s.storedLen pp
+    match (items[i]?).join with
+    | some v => feedVal (fnvStep h 1) v
+    | none => fnvStep h 0) h
+
 def kv (w : String) : Option (String × String) :=
   match w.splitOn "=" with
   | [k, v] => some (k, v)
@@ -89,6 +119,9 @@ def initFrom (ws : List String) : V :=
 def handle (s : V) (line : String) : V × String :=
   match words line with
   | "case" :: rest => (initFrom rest, line.trimAscii.toString)
+  | ["reads", seed] =>
+    let s' := { s with oob := false }
+    (s', dump s' (.okI (readHash s (seed.toNat?.getD 0)).toNat))
   | ws =>
     match parseOp ws with
     | none => (s, "bad-op")
